@@ -51,13 +51,14 @@ type Verifier struct {
 	assumptions map[string]bool
 	inlineDepthMax int
 	sliceGlobalArr map[*ssa.Global]int64
+	lemmaDeps map[string]bool // lemma functions that justify caller-only postconditions used so far
 }
 
 var theV *Verifier
 
 func newVerifier(p *Program, lib *SpecLib) *Verifier {
 	v := &Verifier{prog: p, lib: lib, finfo: map[*ssa.Function]*FuncInfo{}, globals: map[*ssa.Global]int64{}, strConsts: map[string]int64{},
-		nextNeg: -1, typeTags: map[string]int64{}, tagTypes: map[int64]types.Type{}, assumptions: map[string]bool{}, inlineDepthMax: 6, sliceGlobalArr: map[*ssa.Global]int64{}}
+		nextNeg: -1, typeTags: map[string]int64{}, tagTypes: map[int64]types.Type{}, assumptions: map[string]bool{}, inlineDepthMax: 6, sliceGlobalArr: map[*ssa.Global]int64{}, lemmaDeps: map[string]bool{}}
 	theV = v
 	v.scanFieldAddrs()
 	v.scanGlobals()
@@ -366,6 +367,8 @@ type Unit struct {
 	deps     map[string]bool
 	fixLen    map[int]int64
 	anchored  map[int]bool
+	justified map[string]bool // ensures-by clauses this (lemma function) unit has turned into obligations
+	ghost     map[string]*CV // values named by "bind after" clauses (lemma functions)
 	names     map[string]int
 	unrollAll int // >0: bounded mode — every loop is unrolled this many times and longer runs are cut off
 }
@@ -411,6 +414,7 @@ type Frame struct {
 	headEnv map[*Loop]map[ssa.Value]*Val
 	parent    *Frame
 	inlineSet map[string]bool
+	pendingBy []pendingJustify
 	loopMods  []loopMod
 	writeKinds []string // heap kinds of the write being checked (for "any" frame targets)
 }
@@ -527,7 +531,7 @@ func (u *Unit) addObl(name, kind string, guard, goal *Term, pos, desc string) {
 
 func (v *Verifier) newUnit(fn *ssa.Function) *Unit {
 	name := v.prog.names[fn]
-	u := &Unit{v: v, fn: fn, name: name, contract: v.lib.Contracts[name], counters: map[string]int{}, notes: map[string]bool{}, opaque: map[string]bool{}, fuel: map[string]int{}, assumed: map[string]bool{}, deps: map[string]bool{}, anchored: map[int]bool{}}
+	u := &Unit{v: v, fn: fn, name: name, contract: v.lib.Contracts[name], counters: map[string]int{}, notes: map[string]bool{}, opaque: map[string]bool{}, fuel: map[string]int{}, assumed: map[string]bool{}, deps: map[string]bool{}, anchored: map[int]bool{}, justified: map[string]bool{}}
 	if u.contract != nil {
 		for _, o := range u.contract.Opaque {
 			u.opaque[o] = true
@@ -685,6 +689,16 @@ func (v *Verifier) verifyFunctionFixed(fn *ssa.Function, unrollAll int, fixLen m
 	// late-registered global axioms (globals discovered during execution) are appended at the end
 	fr.run(st)
 	fr.finish()
+	// a lemma function must have met (and so proved) every ensures-by clause that names it
+	if u.contract != nil && u.contract.Lemma && unrollAll == 0 {
+		for cn, c := range v.lib.Contracts {
+			for _, ce := range c.CallerEnsures {
+				if ce.By == u.name && !u.justified[c.Fn+"|"+ce.C.Src] {
+					u.errs = append(u.errs, fmt.Sprintf("%s: ensures-by clause of %s names %s, which never calls it on a reachable path (contract.attach)", ce.C.Where, cn, u.name))
+				}
+			}
+		}
+	}
 	// every proof-decomposition assertion must have found its anchor call
 	if u.contract != nil && unrollAll == 0 {
 		for k, a := range u.contract.Asserts {
